@@ -164,7 +164,7 @@ int main(int argc, char **argv) {
             }
             free(buf);
         } else if (vh_is("PARSELAST") || vh_is("PARSE")) {
-            /* PARSELAST fmt | PARSE fmt text style dateonly Y M D h m s fsep frac zlit zsign zh zm zcolon */
+            /* PARSELAST fmt | PARSE fmt text style dateonly Y M D h m s fsep frac zlit zsign zh zm zcolon [nowd] */
             bool last = vh_is("PARSELAST");
             if (last && !have_text) {
                 continue;
@@ -206,6 +206,7 @@ int main(int argc, char **argv) {
                 vh_int("zh", vh_argi(15));
                 vh_int("zm", vh_argi(16));
                 vh_int("zcolon", vh_argi(17));
+                vh_int("nowd", vh_ntok > 18 ? vh_argi(18) : 0); /* RFC 822 text written without the optional week day */
             }
             vh_rc(rc);
             free(t);
